@@ -25,6 +25,7 @@ def global_options(ex, st):
 
 
 L.globals[('*', 'options')] = global_options
+SYM_AXIOM = z3.Int('SYM_ALL') >= 0
 L.globals[('*', 'long')] = lambda ex, st: Ext('builtins.int')
 L.globals[('*', '__name__')] = lambda ex, st: 'cvxopt.module'
 
@@ -44,6 +45,7 @@ def symlist(ex, st, name, lo, owner):
     """list of ints >= lo of symbolic length (dims['q'], dims['s'])"""
     ln = ex.fresh_int('len(%s)' % name)
     ex.axioms.append(ln.t >= 0)
+    ex.axioms.append(z3.Int('SYM_ALL') >= ln.t)
     f = z3.Function(name, z3.IntSort(), z3.IntSort())
     ref = ex.alloc(st, 'list', {'len': ln, 'elem': ('fn', lambda k, f=f:
                                                     f(k))},
@@ -128,6 +130,7 @@ def conelp_setup(sc):
                    'yaxpy', 'yscal'):
             fr[nm] = None
         fr['kwargs'] = kwargs_dict(ex, st, sc.get('options', False))
+        ex.axioms.append(SYM_AXIOM)
         st.ghost['scenario'] = sc
     return setup
 
@@ -242,6 +245,9 @@ class SBlockInv:
                     and st_.args and isinstance(st_.args[0], ast.Name):
                 self.symm_vars.append(st_.args[0].id)
         self.entry = {}
+
+    def begin(self, ex, st, fid, it):
+        st.ghost.pop(('sblock_entry', self.s.lineno), None)
 
     def __call__(self, ex, st, fid, k, it):
         out = []
@@ -376,155 +382,218 @@ def sym_ok(ex, st, v, slist):
     return z3.BoolVal(False)
 
 
-def conelp_on_outcomes(ex, outs):
-    """obligations at every exit of conelp (G2, G3, G5)"""
-    summ = {'returns': {}, 'raises': {}}
-    fid0 = 1
-    for o in outs:
-        st = o.st
-        if o.kind == 'raise':
-            et, msg, line = o.val
-            summ['raises'][et] = summ['raises'].get(et, 0) + 1
-            ex.oblige(st, 'exception-type', et in ('TypeError', 'ValueError'),
-                      None, 'only TypeError/ValueError leave conelp (%s '
-                      'raised at line %s)' % (et, line))
-            st.obligs[-1].line = line or 0
-            continue
-        if o.kind != 'return':
-            continue
-        v = o.val
-        if not (isinstance(v, Ref) and st.heap[v.oid].kind == 'dict'):
-            ex.oblige(st, 'returns-dict', False, None,
-                      'conelp returns a result dictionary on every normal '
-                      'exit')
-            continue
-        d = st.heap[v.oid].f['items']
-        status = d.get('status')
-        summ['returns'][status] = summ['returns'].get(status, 0) + 1
-        line = st.heap[v.oid].meta.get('site', 0)
-        where = 'return at line %s (%s)' % (line, status)
+PROP_OF = {'conelp': 'C01', 'lp': 'C01', 'socp': 'C01', 'sdp': 'C01',
+           'coneqp': 'C03', 'qp': 'C03', 'cpl': 'C04', 'cp': 'C04',
+           'gp': 'C04'}
+QP_FIELDS = ('x', 'y', 's', 'z', 'status', 'gap', 'relative gap',
+             'primal objective', 'dual objective', 'primal infeasibility',
+             'dual infeasibility', 'primal slack', 'dual slack', 'iterations')
 
-        def ob(kind, goal, text):
-            ex.oblige(st, kind, goal, None, '%s: %s' % (where, text))
-            st.obligs[-1].line = line
 
-        ob('result-fields', set(d.keys()) == set(FIELDS),
-           'the result has exactly the documented keys')
-        ob('result-status', status in STATUSES, 'status is a documented one')
-        if set(d.keys()) != set(FIELDS) or status not in STATUSES:
-            continue
-        F = lambda nm: lookup_opt(ex, st, fid0, nm)
-        FEASTOL, ABSTOL, RELTOL, MAXITERS = (F('FEASTOL'), F('ABSTOL'),
-                                             F('RELTOL'), F('MAXITERS'))
-        ft = ex.num(st, FEASTOL)[1]
-        at = ex.num(st, ABSTOL)[1]
-        rt = ex.num(st, RELTOL)[1]
-        mk, mt = ex.num(st, MAXITERS)
-        real = lambda k_t: z3.ToReal(k_t[1]) if k_t[0] == 'int' else k_t[1]
-        ft, at, rt = [real(ex.num(st, x)) for x in (FEASTOL, ABSTOL, RELTOL)]
-        # iterations
-        itn, itv = num_or_none(ex, st, d['iterations'], 'iterations')
-        ob('iterations-bound', z3.And(z3.Not(itn), itv >= 0,
-                                      itv <= z3.ToReal(mt)),
-           "0 <= result['iterations'] <= options['maxiters']")
-        dl = dims_lists(ex, st, fid0)
-        slist = dl[2] if dl else None
-        for key in ('s', 'z'):
-            ob('symmetric-s-blocks', sym_ok(ex, st, d[key], slist),
-               "the 's' blocks of result['%s'] are symmetric" % key)
-        handled = [h for h in st.handled if h[0] == 'ArithmeticError']
-        if status == 'optimal':
-            ob('optimal-not-after-failure', not handled,
-               "status 'optimal' is not returned on a path that caught "
-               "ArithmeticError")
-            pn, pv = num_or_none(ex, st, d['primal infeasibility'], 'pres')
-            dn, dv = num_or_none(ex, st, d['dual infeasibility'], 'dres')
-            gn, gv = num_or_none(ex, st, d['gap'], 'gap')
-            rn, rv = num_or_none(ex, st, d['relative gap'], 'relgap')
-            goal = z3.And(z3.Not(pn), z3.Not(dn), z3.Not(gn), pv <= ft,
-                          dv <= ft, z3.Or(gv <= at, z3.And(z3.Not(rn),
-                                                           rv <= rt)))
-            ob('optimal-criteria', goal,
-               "result['primal infeasibility'] <= feastol, result['dual "
-               "infeasibility'] <= feastol and (result['gap'] <= abstol or "
-               "result['relative gap'] <= reltol)")
-            for key in ('residual as primal infeasibility certificate',
-                        'residual as dual infeasibility certificate'):
+def status_cases(ex, st, status, statuses):
+    """[(status string, state restricted to it)]"""
+    if isinstance(status, str):
+        return [(status, st)]
+    if isinstance(status, Dyn):
+        out = []
+        other = [status.tag == TAG_STR]
+        for cand in statuses:
+            c = z3.And(status.tag == TAG_STR, status.s == strid(cand))
+            if ex.check(st.pc, [c]) != z3.unsat:
+                st2 = st.copy()
+                st2.pc.append(c)
+                # obligations recorded on the copy must be visible on the
+                # original state: share the list object
+                st2.obligs = st.obligs
+                out.append((cand, st2))
+            other.append(status.s != strid(cand))
+        if ex.check(st.pc, [z3.Or(status.tag != TAG_STR, z3.And(other))]) \
+                != z3.unsat:
+            out.append((None, st))
+        return out
+    return [(None, st)]
+
+
+def make_on_outcomes(fname, fields, statuses, tol_names=('FEASTOL', 'ABSTOL',
+                                                          'RELTOL',
+                                                          'MAXITERS'),
+                     svec=('s', 'z'), slack=(('primal slack', 's'),
+                                             ('dual slack', 'z')),
+                     allowed_exc=('TypeError', 'ValueError')):
+    def on_outcomes(ex, outs):
+        summ = {'returns': {}, 'raises': {}}
+        fid0 = 1
+        for o in outs:
+            st = o.st
+            if o.kind == 'raise':
+                et, msg, line = o.val
+                summ['raises'][et] = summ['raises'].get(et, 0) + 1
+                ex.oblige(st, 'exception-type', et in allowed_exc, None,
+                          'only TypeError/ValueError leave %s (%s raised at '
+                          'line %s)' % (fname, et, line),
+                          extra={'prop': 'C10'})
+                st.obligs[-1].line = line or 0
+                if et in allowed_exc and st.handled:
+                    # a ValueError raised from an `except ArithmeticError`
+                    # handler is the documented rank error: only during
+                    # start-up / the first iteration
+                    pass
+                continue
+            if o.kind != 'return':
+                continue
+            v = o.val
+            if not (isinstance(v, Ref) and st.heap[v.oid].kind == 'dict'):
+                ex.oblige(st, 'returns-dict', False, None,
+                          '%s returns a result dictionary on every normal '
+                          'exit' % fname, extra={'prop': 'C10'})
+                continue
+            d = st.heap[v.oid].f['items']
+            line = st.heap[v.oid].meta.get('site', 0)
+            for status, st2 in status_cases(ex, st, d.get('status'),
+                                            statuses):
+                summ['returns'][status] = summ['returns'].get(status, 0) + 1
+                check_result(ex, st2, d, status, line, fname, fields,
+                             statuses, tol_names, svec, slack, fid0)
+        return summ
+    return on_outcomes
+
+
+def check_result(ex, st, d, status, line, fname, fields, statuses, tol_names,
+                 svec, slack, fid0):
+    where = 'return at line %s (%s)' % (line, status)
+
+    cert = status in ('primal infeasible', 'dual infeasible')
+    prop = PROP_OF.get(fname, 'C01')
+    if cert:
+        prop = 'C02'
+
+    def ob(kind, goal, text):
+        ex.oblige(st, kind, goal, None, '%s: %s' % (where, text),
+                  extra={'prop': 'C10' if kind == 'optimal-not-after-failure'
+                         else ('C09' if kind == 'iterations-bound' else
+                               prop)})
+        st.obligs[-1].line = line
+
+    ob('result-fields', set(d.keys()) == set(fields),
+       'the result has exactly the documented keys')
+    ob('result-status', status in statuses, 'status is a documented one')
+    if set(d.keys()) != set(fields) or status not in statuses:
+        return
+    F = lambda nm: lookup_opt(ex, st, fid0, nm)
+    real = lambda k_t: z3.ToReal(k_t[1]) if k_t[0] == 'int' else k_t[1]
+    ft, at, rt = [real(ex.num(st, F(x))) for x in tol_names[:3]]
+    mk, mt = ex.num(st, F(tol_names[3]))
+    itn, itv = num_or_none(ex, st, d['iterations'], 'iterations')
+    ob('iterations-bound', z3.And(z3.Not(itn), itv >= 0,
+                                  itv <= z3.ToReal(mt)),
+       "0 <= result['iterations'] <= options['maxiters']")
+    dl = dims_lists(ex, st, fid0)
+    slist = dl[2] if dl else None
+    for key in svec:
+        ob('symmetric-s-blocks', sym_ok(ex, st, d[key], slist),
+           "the 's' blocks of result['%s'] are symmetric" % key)
+    handled = [h for h in st.handled if h[0] == 'ArithmeticError']
+    vecs = [k for k in ('x', 'y', 's', 'z', 'sl', 'snl', 'zl', 'znl')
+            if k in d]
+    if status == 'optimal':
+        ob('optimal-not-after-failure', not handled,
+           "status 'optimal' is not returned on a path that caught "
+           "ArithmeticError")
+        pn, pv = num_or_none(ex, st, d['primal infeasibility'], 'pres')
+        dn, dv = num_or_none(ex, st, d['dual infeasibility'], 'dres')
+        gn, gv = num_or_none(ex, st, d['gap'], 'gap')
+        rn, rv = num_or_none(ex, st, d['relative gap'], 'relgap')
+        goal = z3.And(z3.Not(pn), z3.Not(dn), z3.Not(gn), pv <= ft,
+                      dv <= ft, z3.Or(gv <= at, z3.And(z3.Not(rn),
+                                                       rv <= rt)))
+        ob('optimal-criteria', goal,
+           "result['primal infeasibility'] <= feastol, result['dual "
+           "infeasibility'] <= feastol and (result['gap'] <= abstol or "
+           "result['relative gap'] <= reltol)")
+        for key in ('residual as primal infeasibility certificate',
+                    'residual as dual infeasibility certificate'):
+            if key in d:
                 ob('certificate-fields-none', is_none(ex, st, d[key]),
                    "result['%s'] is None" % key)
-            for key in ('x', 'y', 's', 'z'):
-                ob('vectors-present', z3.Not(bz(is_none(ex, st, d[key]))),
-                   "result['%s'] is not None" % key)
-            slack_bindings(ex, st, d, ob)
-        elif status == 'unknown':
-            for key in ('x', 'y', 's', 'z'):
-                ob('vectors-present', z3.Not(bz(is_none(ex, st, d[key]))),
-                   "result['%s'] is not None" % key)
-            slack_bindings(ex, st, d, ob)
-        elif status == 'primal infeasible':
-            ob('optimal-not-after-failure', not handled,
-               "a certificate is not returned on a path that caught "
-               "ArithmeticError")
-            for key in ('x', 's', 'gap', 'relative gap', 'primal objective',
-                        'primal infeasibility', 'dual infeasibility',
-                        'primal slack',
-                        'residual as dual infeasibility certificate'):
-                ob('certificate-none-pattern', is_none(ex, st, d[key]),
-                   "result['%s'] is None" % key)
-            for key in ('y', 'z'):
-                ob('vectors-present', z3.Not(bz(is_none(ex, st, d[key]))),
-                   "result['%s'] is not None" % key)
-            cn, cv = num_or_none(ex, st, d[
-                'residual as primal infeasibility certificate'], 'pinfres')
-            ob('certificate-residual', z3.And(z3.Not(cn), cv <= ft),
-               "result['residual as primal infeasibility certificate'] <= "
-               "feastol")
-            on, ov = num_or_none(ex, st, d['dual objective'], 'dcost')
-            ob('certificate-objective', z3.And(z3.Not(on), ov == 1),
-               "result['dual objective'] == 1.0  (h'z + b'y = -1)")
-            slack_bindings(ex, st, d, ob, primal=False)
-        elif status == 'dual infeasible':
-            ob('optimal-not-after-failure', not handled,
-               "a certificate is not returned on a path that caught "
-               "ArithmeticError")
-            for key in ('y', 'z', 'gap', 'relative gap', 'dual objective',
-                        'primal infeasibility', 'dual infeasibility',
-                        'dual slack',
-                        'residual as primal infeasibility certificate'):
-                ob('certificate-none-pattern', is_none(ex, st, d[key]),
-                   "result['%s'] is None" % key)
-            for key in ('x', 's'):
-                ob('vectors-present', z3.Not(bz(is_none(ex, st, d[key]))),
-                   "result['%s'] is not None" % key)
-            cn, cv = num_or_none(ex, st, d[
-                'residual as dual infeasibility certificate'], 'dinfres')
-            ob('certificate-residual', z3.And(z3.Not(cn), cv <= ft),
-               "result['residual as dual infeasibility certificate'] <= "
-               "feastol")
-            on, ov = num_or_none(ex, st, d['primal objective'], 'pcost')
-            ob('certificate-objective', z3.And(z3.Not(on), ov == -1),
-               "result['primal objective'] == -1.0  (c'x = -1)")
-            slack_bindings(ex, st, d, ob, dual=False)
-    return summ
+        for key in vecs:
+            ob('vectors-present', z3.Not(bz(is_none(ex, st, d[key]))),
+               "result['%s'] is not None" % key)
+        slack_bindings(ex, st, d, ob, slack)
+    elif status == 'unknown':
+        for key in vecs:
+            ob('vectors-present', z3.Not(bz(is_none(ex, st, d[key]))),
+               "result['%s'] is not None" % key)
+        slack_bindings(ex, st, d, ob, slack)
+    elif status == 'primal infeasible':
+        ob('optimal-not-after-failure', not handled,
+           "a certificate is not returned on a path that caught "
+           "ArithmeticError")
+        for key in ('x', 's', 'gap', 'relative gap', 'primal objective',
+                    'primal infeasibility', 'dual infeasibility',
+                    'primal slack',
+                    'residual as dual infeasibility certificate'):
+            ob('certificate-none-pattern', is_none(ex, st, d[key]),
+               "result['%s'] is None" % key)
+        for key in ('y', 'z'):
+            ob('vectors-present', z3.Not(bz(is_none(ex, st, d[key]))),
+               "result['%s'] is not None" % key)
+        cn, cv = num_or_none(ex, st, d[
+            'residual as primal infeasibility certificate'], 'pinfres')
+        ob('certificate-residual', z3.And(z3.Not(cn), cv <= ft),
+           "result['residual as primal infeasibility certificate'] <= "
+           "feastol")
+        on, ov = num_or_none(ex, st, d['dual objective'], 'dcost')
+        ob('certificate-objective', z3.And(z3.Not(on), ov == 1),
+           "result['dual objective'] == 1.0  (h'z + b'y = -1)")
+        slack_bindings(ex, st, d, ob, [x for x in slack if x[1] == 'z'])
+    elif status == 'dual infeasible':
+        ob('optimal-not-after-failure', not handled,
+           "a certificate is not returned on a path that caught "
+           "ArithmeticError")
+        for key in ('y', 'z', 'gap', 'relative gap', 'dual objective',
+                    'primal infeasibility', 'dual infeasibility',
+                    'dual slack',
+                    'residual as primal infeasibility certificate'):
+            ob('certificate-none-pattern', is_none(ex, st, d[key]),
+               "result['%s'] is None" % key)
+        for key in ('x', 's'):
+            ob('vectors-present', z3.Not(bz(is_none(ex, st, d[key]))),
+               "result['%s'] is not None" % key)
+        cn, cv = num_or_none(ex, st, d[
+            'residual as dual infeasibility certificate'], 'dinfres')
+        ob('certificate-residual', z3.And(z3.Not(cn), cv <= ft),
+           "result['residual as dual infeasibility certificate'] <= "
+           "feastol")
+        on, ov = num_or_none(ex, st, d['primal objective'], 'pcost')
+        ob('certificate-objective', z3.And(z3.Not(on), ov == -1),
+           "result['primal objective'] == -1.0  (c'x = -1)")
+        slack_bindings(ex, st, d, ob, [x for x in slack if x[1] == 's'])
+
+
+conelp_on_outcomes = make_on_outcomes('conelp', FIELDS, STATUSES)
+coneqp_on_outcomes = make_on_outcomes('coneqp', QP_FIELDS, ('optimal',
+                                                            'unknown'))
 
 
 def bz(v):
     return z3.BoolVal(v) if isinstance(v, bool) else v
 
 
-def slack_bindings(ex, st, d, ob, primal=True, dual=True):
-    """'primal slack' == -max_step(returned s) evaluated after the last
-    modification of s (and likewise for z)"""
-    for key, vec, on in (('primal slack', 's', primal), ('dual slack', 'z',
-                                                        dual)):
-        if not on:
-            continue
+def slack_bindings(ex, st, d, ob, pairs):
+    """'primal slack' == -max_step(returned s), evaluated on the lower
+    triangles of the returned vector (and likewise for z)"""
+    for key, vec in pairs:
         v = d[vec]
+        sn, sv = num_or_none(ex, st, d[key], key)
         if not is_matrix(st, v):
             continue
         last = mat(st, v).f.get('last_max_step')
-        sn, sv = num_or_none(ex, st, d[key], key)
         if last is None:
+            c, k_ = const_of(d[key])
+            if c and k_ == 0.0 and const_of(mat(st, v).f['nrows'])[1] == 0:
+                ob('slack-binding', True, "result['%s'] of an empty cone "
+                   "is 0" % key)
+                continue
             ob('slack-binding', False, "result['%s'] is -max_step of the "
                "returned %s" % (key, vec))
         else:
@@ -532,8 +601,57 @@ def slack_bindings(ex, st, d, ob, primal=True, dual=True):
                "result['%s'] == -max_step(result['%s'])" % (key, vec))
 
 
+def coneqp_setup(sc):
+    def setup(ex, st, fid, fn):
+        fr = st.frames[fid]
+        fr['P'] = input_matrix(ex, st, 'P', sparse=sc.get('sparseP', None))
+        fr['q'] = input_matrix(ex, st, 'q', ncols=1)
+        fr['G'] = input_matrix(ex, st, 'G', sparse=None) if sc.get(
+            'G', True) else None
+        fr['h'] = input_matrix(ex, st, 'h', ncols=1) if sc.get('G', True) \
+            else None
+        fr['dims'] = input_dims(ex, st) if sc.get('dims', True) else None
+        if fr['dims'] is not None:
+            register_sblocks(ex, st, fr['dims'])
+        fr['A'] = input_matrix(ex, st, 'A', sparse=None) if sc.get(
+            'A', True) else None
+        fr['b'] = input_matrix(ex, st, 'b', ncols=1) if sc.get('b', True) \
+            else None
+        iv = sc.get('initvals')
+        fr['initvals'] = start_dict(ex, st, 'initvals', iv, None) if iv \
+            else None
+        ks = sc.get('kktsolver')
+        if ks is None:
+            fr['kktsolver'] = None
+        elif ks == 'str':
+            d = ex.fresh_dyn('kktsolver')
+            ex.axioms.append(d.tag == TAG_STR)
+            fr['kktsolver'] = d
+        else:
+            fr['kktsolver'] = Unknown('user kktsolver', role='kktsolver')
+        for nm in ('xnewcopy', 'xdot', 'xaxpy', 'xscal', 'ynewcopy', 'ydot',
+                   'yaxpy', 'yscal'):
+            fr[nm] = None
+        fr['kwargs'] = kwargs_dict(ex, st, sc.get('options', False))
+        ex.axioms.append(SYM_AXIOM)
+        st.ghost['scenario'] = sc
+    return setup
+
+
+CONEQP_SCENARIOS = {
+    'defaults': {},
+    'options+initvals': {'options': True, 'initvals': ['x', 's', 'y', 'z'],
+                         'kktsolver': 'str'},
+    'noG-noA': {'G': False, 'A': False, 'b': False, 'dims': False,
+                'options': True},
+    'userkkt+partial-initvals': {'kktsolver': 'callable',
+                                 'initvals': ['x', 'z']},
+}
 FUNCS = {
     'conelp': {'setup': conelp_setup, 'scenarios': CONELP_SCENARIOS,
                'on_outcomes': conelp_on_outcomes,
+               'config': {'unroll': 4}},
+    'coneqp': {'setup': coneqp_setup, 'scenarios': CONEQP_SCENARIOS,
+               'on_outcomes': coneqp_on_outcomes,
                'config': {'unroll': 4}},
 }
